@@ -22,6 +22,11 @@ package document
 //@ ensures err != nil ==> unchangedHeap()
 //@ ensures err == nil ==> len(t.Rows) == old(len(t.Rows)) - 1
 //@ ensures err == nil ==> forall r int :: 0 <= r && r < len(t.Rows) ==> t.Rows[r] == old(t.Rows[ite(r < rowIndex, r, r+1)])
+//@ ensures err == nil && old(rowsOwn(t)) && (forall r int :: 0 <= r && r < len(t.Rows) ==> t.Rows[r] == old(t.Rows[ite(r < rowIndex, r, r+1)])) ==> rowsOwn(t)
+//@ ensures err == nil && old(cellPropsOwn(t)) && (forall r int :: 0 <= r && r < len(t.Rows) ==> t.Rows[r] == old(t.Rows[ite(r < rowIndex, r, r+1)])) ==> cellPropsOwn(t)
+//@ ensures err == nil && old(rowPropsOwn(t)) && (forall r int :: 0 <= r && r < len(t.Rows) ==> t.Rows[r] == old(t.Rows[ite(r < rowIndex, r, r+1)])) ==> rowPropsOwn(t)
+//@ ensures err == nil && old(cellParasOwn(t)) && (forall r int :: 0 <= r && r < len(t.Rows) ==> t.Rows[r] == old(t.Rows[ite(r < rowIndex, r, r+1)])) ==> cellParasOwn(t)
+//@ ensures err == nil && old(paraRunsOwn(t)) && (forall r int :: 0 <= r && r < len(t.Rows) ==> t.Rows[r] == old(t.Rows[ite(r < rowIndex, r, r+1)])) ==> paraRunsOwn(t)
 
 //@ func (*Table).InsertRow
 //@ props C09
@@ -35,6 +40,15 @@ package document
 //@ ensures err == nil ==> forall k int :: 0 <= k && k < len(t.Rows[position].Cells) ==> len(t.Rows[position].Cells[k].Paragraphs) == 1 && len(t.Rows[position].Cells[k].Paragraphs[0].Runs) == 1 && t.Rows[position].Cells[k].Paragraphs[0].Runs[0].Text.Content == ite(k < len(data), data[k], "")
 //@ ensures err == nil ==> forall k int :: 0 <= k && k < len(t.Rows[position].Cells) ==> ((t.Rows[position].Cells[k].Properties == nil) == (old(t.Rows[0].Cells[k].Properties) == nil)) && (t.Rows[position].Cells[k].Properties == nil || fresh(t.Rows[position].Cells[k].Properties))
 //@ ensures err == nil ==> forall k1 int, k2 int :: 0 <= k1 && k1 < k2 && k2 < len(t.Rows[position].Cells) && t.Rows[position].Cells[k1].Properties != nil ==> t.Rows[position].Cells[k1].Properties != t.Rows[position].Cells[k2].Properties
+//@ ensures err == nil ==> (forall r int :: 0 <= r && r < len(t.Rows) && r != position ==> t.Rows[r] == old(t.Rows[ite(r < position, r, r-1)]))
+//@ ensures err == nil ==> t.Rows[position].Properties == nil && arr(t.Rows[position].Cells) >= old(allocBound())
+//@ ensures err == nil ==> forall k int :: 0 <= k && k < len(t.Rows[position].Cells) ==> freshArr(t.Rows[position].Cells[k].Paragraphs) && freshArr(t.Rows[position].Cells[k].Paragraphs[0].Runs)
+//@ ensures err == nil ==> forall k1 int, k2 int :: 0 <= k1 && k1 < k2 && k2 < len(t.Rows[position].Cells) ==> arr(t.Rows[position].Cells[k1].Paragraphs) != arr(t.Rows[position].Cells[k2].Paragraphs) && arr(t.Rows[position].Cells[k1].Paragraphs[0].Runs) != arr(t.Rows[position].Cells[k2].Paragraphs[0].Runs)
+//@ ensures err == nil && old(rowsOwn(t)) && (forall r int :: 0 <= r && r < len(t.Rows) && r != position ==> t.Rows[r] == old(t.Rows[ite(r < position, r, r-1)])) ==> rowsOwn(t)
+//@ ensures err == nil && old(cellPropsOwn(t)) && (forall r int :: 0 <= r && r < len(t.Rows) && r != position ==> t.Rows[r] == old(t.Rows[ite(r < position, r, r-1)])) ==> cellPropsOwn(t)
+//@ ensures err == nil && old(rowPropsOwn(t)) && (forall r int :: 0 <= r && r < len(t.Rows) && r != position ==> t.Rows[r] == old(t.Rows[ite(r < position, r, r-1)])) ==> rowPropsOwn(t)
+//@ ensures err == nil && old(cellParasOwn(t)) && (forall r int :: 0 <= r && r < len(t.Rows) && r != position ==> t.Rows[r] == old(t.Rows[ite(r < position, r, r-1)])) ==> cellParasOwn(t)
+//@ ensures err == nil && old(paraRunsOwn(t)) && (forall r int :: 0 <= r && r < len(t.Rows) && r != position ==> t.Rows[r] == old(t.Rows[ite(r < position, r, r-1)])) ==> paraRunsOwn(t)
 //@ loop 1
 //@   invariant 0 <= i && i <= colCount
 //@   invariant len(newRow.Cells) == colCount && arr(newRow.Cells) >= old(allocBound()) && off(newRow.Cells) == 0
@@ -44,6 +58,9 @@ package document
 //@   invariant forall k int :: 0 <= k && k < i ==> len(newRow.Cells[k].Paragraphs) == 1 && len(newRow.Cells[k].Paragraphs[0].Runs) == 1 && newRow.Cells[k].Paragraphs[0].Runs[0].Text.Content == ite(k < len(data), data[k], "")
 //@   invariant forall k int :: 0 <= k && k < i ==> ((newRow.Cells[k].Properties == nil) == (old(t.Rows[0].Cells[k].Properties) == nil)) && (newRow.Cells[k].Properties == nil || fresh(newRow.Cells[k].Properties))
 //@   invariant forall k1 int, k2 int :: 0 <= k1 && k1 < k2 && k2 < i && newRow.Cells[k1].Properties != nil ==> newRow.Cells[k1].Properties != newRow.Cells[k2].Properties
+//@   invariant newRow.Properties == nil
+//@   invariant forall k int :: 0 <= k && k < i ==> freshArr(newRow.Cells[k].Paragraphs) && freshArr(newRow.Cells[k].Paragraphs[0].Runs)
+//@   invariant forall k1 int, k2 int :: 0 <= k1 && k1 < k2 && k2 < i ==> arr(newRow.Cells[k1].Paragraphs) != arr(newRow.Cells[k2].Paragraphs) && arr(newRow.Cells[k1].Paragraphs[0].Runs) != arr(newRow.Cells[k2].Paragraphs[0].Runs)
 //@   decreases colCount - i
 
 //@ func (*Table).AppendRow
@@ -52,6 +69,11 @@ package document
 //@ ensures err != nil ==> unchangedHeap()
 //@ ensures err == nil ==> len(t.Rows) == old(len(t.Rows)) + 1
 //@ ensures err == nil ==> forall r int :: 0 <= r && r < old(len(t.Rows)) ==> t.Rows[r] == old(t.Rows[r])
+//@ ensures err == nil && old(rowsOwn(t)) ==> rowsOwn(t)
+//@ ensures err == nil && old(cellPropsOwn(t)) ==> cellPropsOwn(t)
+//@ ensures err == nil && old(rowPropsOwn(t)) ==> rowPropsOwn(t)
+//@ ensures err == nil && old(cellParasOwn(t)) ==> cellParasOwn(t)
+//@ ensures err == nil && old(paraRunsOwn(t)) ==> paraRunsOwn(t)
 
 //@ func (*Table).DeleteRows
 //@ props C09
@@ -60,6 +82,11 @@ package document
 //@ ensures err != nil ==> unchangedHeap()
 //@ ensures err == nil ==> len(t.Rows) == old(len(t.Rows)) - (endIndex - startIndex + 1)
 //@ ensures err == nil ==> forall r int :: 0 <= r && r < len(t.Rows) ==> t.Rows[r] == old(t.Rows[ite(r < startIndex, r, r + (endIndex - startIndex + 1))])
+//@ ensures err == nil && old(rowsOwn(t)) && (forall r int :: 0 <= r && r < len(t.Rows) ==> t.Rows[r] == old(t.Rows[ite(r < startIndex, r, r + (endIndex - startIndex + 1))])) ==> rowsOwn(t)
+//@ ensures err == nil && old(cellPropsOwn(t)) && (forall r int :: 0 <= r && r < len(t.Rows) ==> t.Rows[r] == old(t.Rows[ite(r < startIndex, r, r + (endIndex - startIndex + 1))])) ==> cellPropsOwn(t)
+//@ ensures err == nil && old(rowPropsOwn(t)) && (forall r int :: 0 <= r && r < len(t.Rows) ==> t.Rows[r] == old(t.Rows[ite(r < startIndex, r, r + (endIndex - startIndex + 1))])) ==> rowPropsOwn(t)
+//@ ensures err == nil && old(cellParasOwn(t)) && (forall r int :: 0 <= r && r < len(t.Rows) ==> t.Rows[r] == old(t.Rows[ite(r < startIndex, r, r + (endIndex - startIndex + 1))])) ==> cellParasOwn(t)
+//@ ensures err == nil && old(paraRunsOwn(t)) && (forall r int :: 0 <= r && r < len(t.Rows) ==> t.Rows[r] == old(t.Rows[ite(r < startIndex, r, r + (endIndex - startIndex + 1))])) ==> paraRunsOwn(t)
 
 //@ func (*Table).GetRowCount
 //@ props C09
@@ -82,6 +109,11 @@ package document
 //@ ensures unchangedExcept("TableCell.Paragraphs", "Paragraph.Runs", "Run.Text.Content", "Paragraph.*", "Run.*")
 //@ ensures forall c int :: 0 <= row && row < len(t.Rows) && 0 <= c && c < len(t.Rows[row].Cells) && c != col ==> t.Rows[row].Cells[c].Paragraphs == old(t.Rows[row].Cells[c].Paragraphs)
 //@ ensures forall r int, c int :: 0 <= r && r < len(t.Rows) && 0 <= c && c < len(t.Rows[r].Cells) && r != row ==> t.Rows[r].Cells[c].Paragraphs == old(t.Rows[r].Cells[c].Paragraphs)
+//@ ensures err == nil && old(cellPropsOwn(t)) ==> cellPropsOwn(t)
+//@ ensures err == nil && old(rowPropsOwn(t)) ==> rowPropsOwn(t)
+//@ ensures err == nil && old(cellParasOwn(t)) ==> cellParasOwn(t)
+//@ ensures rowsOwn(t)
+//@ ensures err == nil && old(cellParasOwn(t)) && old(paraRunsOwn(t)) ==> paraRunsOwn(t)
 
 //@ func (*Table).InsertColumn
 //@ props C09
@@ -95,6 +127,13 @@ package document
 //@ ensures err == nil ==> 0 <= position && len(data) <= len(t.Rows)
 //@ ensures err == nil ==> forall r int :: 0 <= r && r < len(t.Rows) ==> len(t.Rows[r].Cells) == old(len(t.Rows[r].Cells)) + 1 && position < len(t.Rows[r].Cells)
 //@ ensures err == nil ==> forall r int :: 0 <= r && r < len(t.Rows) ==> len(t.Rows[r].Cells[position].Paragraphs) == 1 && len(t.Rows[r].Cells[position].Paragraphs[0].Runs) == 1 && t.Rows[r].Cells[position].Paragraphs[0].Runs[0].Text.Content == ite(r < len(data), data[r], "")
+//@ ensures err == nil ==> (forall r int, c int :: 0 <= r && r < len(t.Rows) && 0 <= c && c < len(t.Rows[r].Cells) && c != position ==> t.Rows[r].Cells[c] == old(t.Rows[r].Cells[ite(c < position, c, c - 1)]))
+//@ ensures err == nil ==> (forall r int :: 0 <= r && r < len(t.Rows) ==> freshArr(t.Rows[r].Cells[position].Paragraphs) && freshArr(t.Rows[r].Cells[position].Paragraphs[0].Runs))
+//@ ensures err == nil ==> (forall r1 int, r2 int :: 0 <= r1 && r1 < r2 && r2 < len(t.Rows) ==> arr(t.Rows[r1].Cells[position].Paragraphs) != arr(t.Rows[r2].Cells[position].Paragraphs) && arr(t.Rows[r1].Cells[position].Paragraphs[0].Runs) != arr(t.Rows[r2].Cells[position].Paragraphs[0].Runs))
+//@ ensures err == nil && old(rowPropsOwn(t)) ==> rowPropsOwn(t)
+//@ ensures err == nil && old(cellPropsOwn(t)) && (forall r int, c int :: 0 <= r && r < len(t.Rows) && 0 <= c && c < len(t.Rows[r].Cells) && c != position ==> t.Rows[r].Cells[c] == old(t.Rows[r].Cells[ite(c < position, c, c - 1)])) ==> cellPropsOwn(t)
+//@ ensures err == nil && old(cellParasOwn(t)) && (forall r int, c int :: 0 <= r && r < len(t.Rows) && 0 <= c && c < len(t.Rows[r].Cells) && c != position ==> t.Rows[r].Cells[c] == old(t.Rows[r].Cells[ite(c < position, c, c - 1)])) ==> cellParasOwn(t)
+//@ ensures err == nil && old(paraRunsOwn(t)) && (forall r int, c int :: 0 <= r && r < len(t.Rows) && 0 <= c && c < len(t.Rows[r].Cells) && c != position ==> t.Rows[r].Cells[c] == old(t.Rows[r].Cells[ite(c < position, c, c - 1)])) ==> paraRunsOwn(t)
 //@ loop 1
 //@   invariant 0 <= #i && #i <= len(t.Rows) && unchangedHeap()
 //@   invariant forall r int :: 0 <= r && r < #i ==> position <= len(t.Rows[r].Cells)
@@ -111,6 +150,10 @@ package document
 //@   invariant forall r int, c int :: #i <= r && r < len(t.Rows) && 0 <= c && c < old(len(t.Rows[r].Cells)) ==> t.Rows[r].Cells[c] == old(t.Rows[r].Cells[c])
 //@   invariant forall r int :: 0 <= r && r < #i ==> arr(t.Rows[r].Cells[position].Paragraphs) < allocBound() && arr(t.Rows[r].Cells[position].Paragraphs[0].Runs) < allocBound()
 //@   invariant forall r int :: 0 <= r && r < #i ==> len(t.Rows[r].Cells[position].Paragraphs) == 1 && len(t.Rows[r].Cells[position].Paragraphs[0].Runs) == 1 && t.Rows[r].Cells[position].Paragraphs[0].Runs[0].Text.Content == ite(r < len(data), data[r], "")
+//@   invariant forall r int, c int :: 0 <= r && r < #i && 0 <= c && c < len(t.Rows[r].Cells) && c != position ==> t.Rows[r].Cells[c] == old(t.Rows[r].Cells[ite(c < position, c, c - 1)])
+//@   invariant forall r int :: 0 <= r && r < #i ==> freshArr(t.Rows[r].Cells[position].Paragraphs) && freshArr(t.Rows[r].Cells[position].Paragraphs[0].Runs)
+//@   invariant forall r1 int, r2 int :: 0 <= r1 && r1 < r2 && r2 < #i ==> arr(t.Rows[r1].Cells[position].Paragraphs) != arr(t.Rows[r2].Cells[position].Paragraphs) && arr(t.Rows[r1].Cells[position].Paragraphs[0].Runs) != arr(t.Rows[r2].Cells[position].Paragraphs[0].Runs)
+//@   invariant old(rowPropsOwn(t)) ==> rowPropsOwn(t)
 //@   decreases len(t.Rows) - #i
 
 //@ func (*Table).AppendColumn
@@ -119,6 +162,10 @@ package document
 //@ ensures err != nil ==> unchangedHeap()
 //@ ensures err == nil ==> len(t.Rows) == old(len(t.Rows)) && rowsOwn(t)
 //@ ensures err == nil ==> forall r int :: 0 <= r && r < len(t.Rows) ==> len(t.Rows[r].Cells) == old(len(t.Rows[r].Cells)) + 1
+//@ ensures err == nil && old(cellPropsOwn(t)) ==> cellPropsOwn(t)
+//@ ensures err == nil && old(rowPropsOwn(t)) ==> rowPropsOwn(t)
+//@ ensures err == nil && old(cellParasOwn(t)) ==> cellParasOwn(t)
+//@ ensures err == nil && old(paraRunsOwn(t)) ==> paraRunsOwn(t)
 
 //@ func (*Table).DeleteColumn
 //@ props C09
@@ -129,6 +176,11 @@ package document
 //@ ensures err == nil && old(t.Grid) != nil && colIndex < old(len(t.Grid.Cols)) ==> len(t.Grid.Cols) == old(len(t.Grid.Cols)) - 1
 //@ ensures err == nil && old(t.Grid) != nil && colIndex >= old(len(t.Grid.Cols)) ==> len(t.Grid.Cols) == old(len(t.Grid.Cols))
 //@ ensures err == nil ==> len(t.Rows[0].Cells) >= 1
+//@ ensures err == nil ==> (forall r int, c int :: 0 <= r && r < len(t.Rows) && 0 <= c && c < len(t.Rows[r].Cells) ==> t.Rows[r].Cells[c] == old(t.Rows[r].Cells[ite(c < colIndex, c, c + 1)]))
+//@ ensures err == nil && old(rowPropsOwn(t)) ==> rowPropsOwn(t)
+//@ ensures err == nil && old(cellPropsOwn(t)) && (forall r int, c int :: 0 <= r && r < len(t.Rows) && 0 <= c && c < len(t.Rows[r].Cells) ==> t.Rows[r].Cells[c] == old(t.Rows[r].Cells[ite(c < colIndex, c, c + 1)])) ==> cellPropsOwn(t)
+//@ ensures err == nil && old(cellParasOwn(t)) && (forall r int, c int :: 0 <= r && r < len(t.Rows) && 0 <= c && c < len(t.Rows[r].Cells) ==> t.Rows[r].Cells[c] == old(t.Rows[r].Cells[ite(c < colIndex, c, c + 1)])) ==> cellParasOwn(t)
+//@ ensures err == nil && old(paraRunsOwn(t)) && (forall r int, c int :: 0 <= r && r < len(t.Rows) && 0 <= c && c < len(t.Rows[r].Cells) ==> t.Rows[r].Cells[c] == old(t.Rows[r].Cells[ite(c < colIndex, c, c + 1)])) ==> paraRunsOwn(t)
 //@ loop 1
 //@   invariant 0 <= #i && #i <= len(t.Rows) && unchangedHeap()
 //@   invariant forall r int :: 0 <= r && r < #i ==> colIndex < len(t.Rows[r].Cells)
@@ -141,6 +193,9 @@ package document
 //@   invariant forall r int :: 0 <= r && r < len(t.Rows) ==> colIndex < old(len(t.Rows[r].Cells))
 //@   invariant forall r int :: 0 <= r && r < #i ==> len(t.Rows[r].Cells) == old(len(t.Rows[r].Cells)) - 1
 //@   invariant forall r int :: #i <= r && r < len(t.Rows) ==> t.Rows[r].Cells == old(t.Rows[r].Cells)
+//@   invariant forall r int, c int :: 0 <= r && r < #i && 0 <= c && c < len(t.Rows[r].Cells) ==> t.Rows[r].Cells[c] == old(t.Rows[r].Cells[ite(c < colIndex, c, c + 1)])
+//@   invariant forall r int, c int :: #i <= r && r < len(t.Rows) && 0 <= c && c < old(len(t.Rows[r].Cells)) ==> t.Rows[r].Cells[c] == old(t.Rows[r].Cells[c])
+//@   invariant old(rowPropsOwn(t)) ==> rowPropsOwn(t)
 //@   decreases len(t.Rows) - #i
 
 //@ func (*Table).DeleteColumns
@@ -151,6 +206,11 @@ package document
 //@ ensures err == nil ==> forall r int :: 0 <= r && r < len(t.Rows) ==> len(t.Rows[r].Cells) == old(len(t.Rows[r].Cells)) - (endIndex - startIndex + 1)
 //@ ensures err == nil && old(t.Grid) != nil && endIndex < old(len(t.Grid.Cols)) ==> len(t.Grid.Cols) == old(len(t.Grid.Cols)) - (endIndex - startIndex + 1)
 //@ ensures err == nil ==> len(t.Rows[0].Cells) >= 1
+//@ ensures err == nil ==> (forall r int, c int :: 0 <= r && r < len(t.Rows) && 0 <= c && c < len(t.Rows[r].Cells) ==> t.Rows[r].Cells[c] == old(t.Rows[r].Cells[ite(c < startIndex, c, c + (endIndex - startIndex + 1))]))
+//@ ensures err == nil && old(rowPropsOwn(t)) ==> rowPropsOwn(t)
+//@ ensures err == nil && old(cellPropsOwn(t)) && (forall r int, c int :: 0 <= r && r < len(t.Rows) && 0 <= c && c < len(t.Rows[r].Cells) ==> t.Rows[r].Cells[c] == old(t.Rows[r].Cells[ite(c < startIndex, c, c + (endIndex - startIndex + 1))])) ==> cellPropsOwn(t)
+//@ ensures err == nil && old(cellParasOwn(t)) && (forall r int, c int :: 0 <= r && r < len(t.Rows) && 0 <= c && c < len(t.Rows[r].Cells) ==> t.Rows[r].Cells[c] == old(t.Rows[r].Cells[ite(c < startIndex, c, c + (endIndex - startIndex + 1))])) ==> cellParasOwn(t)
+//@ ensures err == nil && old(paraRunsOwn(t)) && (forall r int, c int :: 0 <= r && r < len(t.Rows) && 0 <= c && c < len(t.Rows[r].Cells) ==> t.Rows[r].Cells[c] == old(t.Rows[r].Cells[ite(c < startIndex, c, c + (endIndex - startIndex + 1))])) ==> paraRunsOwn(t)
 //@ loop 1
 //@   invariant 0 <= #i && #i <= len(t.Rows) && unchangedHeap()
 //@   invariant forall r int :: 0 <= r && r < #i ==> endIndex < len(t.Rows[r].Cells)
@@ -162,6 +222,9 @@ package document
 //@   invariant forall r int :: 0 <= r && r < len(t.Rows) ==> endIndex < old(len(t.Rows[r].Cells))
 //@   invariant forall r int :: 0 <= r && r < #i ==> len(t.Rows[r].Cells) == old(len(t.Rows[r].Cells)) - (endIndex - startIndex + 1)
 //@   invariant forall r int :: #i <= r && r < len(t.Rows) ==> t.Rows[r].Cells == old(t.Rows[r].Cells)
+//@   invariant forall r int, c int :: 0 <= r && r < #i && 0 <= c && c < len(t.Rows[r].Cells) ==> t.Rows[r].Cells[c] == old(t.Rows[r].Cells[ite(c < startIndex, c, c + (endIndex - startIndex + 1))])
+//@   invariant forall r int, c int :: #i <= r && r < len(t.Rows) && 0 <= c && c < old(len(t.Rows[r].Cells)) ==> t.Rows[r].Cells[c] == old(t.Rows[r].Cells[c])
+//@   invariant old(rowPropsOwn(t)) ==> rowPropsOwn(t)
 //@   decreases len(t.Rows) - #i
 
 //@ func (*Table).MergeCellsHorizontal
@@ -178,10 +241,14 @@ package document
 //@ ensures err == nil ==> t.Rows[row].Cells[startCol].Properties == old(t.Rows[row].Cells[startCol].Properties) || fresh(t.Rows[row].Cells[startCol].Properties)
 //@ ensures err == nil ==> forall r int :: 0 <= r && r < len(t.Rows) && r != row ==> t.Rows[r].Cells == old(t.Rows[r].Cells)
 //@ ensures err == nil ==> forall r int, c int :: 0 <= r && r < len(t.Rows) && r != row && 0 <= c && c < len(t.Rows[r].Cells) ==> t.Rows[r].Cells[c] == old(t.Rows[r].Cells[c])
+//@ ensures err == nil && old(cellPropsOwn(t)) && (forall c int :: 0 <= c && c < startCol ==> t.Rows[row].Cells[c] == old(t.Rows[row].Cells[c])) && (forall c int :: startCol < c && c < len(t.Rows[row].Cells) ==> t.Rows[row].Cells[c] == old(t.Rows[row].Cells[c + (endCol - startCol)])) && (forall r int, c int :: 0 <= r && r < len(t.Rows) && r != row && 0 <= c && c < len(t.Rows[r].Cells) ==> t.Rows[r].Cells[c] == old(t.Rows[r].Cells[c])) ==> cellPropsOwn(t)
+//@ ensures err == nil && old(rowPropsOwn(t)) && (forall c int :: 0 <= c && c < startCol ==> t.Rows[row].Cells[c] == old(t.Rows[row].Cells[c])) && (forall c int :: startCol < c && c < len(t.Rows[row].Cells) ==> t.Rows[row].Cells[c] == old(t.Rows[row].Cells[c + (endCol - startCol)])) && (forall r int, c int :: 0 <= r && r < len(t.Rows) && r != row && 0 <= c && c < len(t.Rows[r].Cells) ==> t.Rows[r].Cells[c] == old(t.Rows[r].Cells[c])) ==> rowPropsOwn(t)
+//@ ensures err == nil && old(cellParasOwn(t)) && t.Rows[row].Cells[startCol].Paragraphs == old(t.Rows[row].Cells[startCol].Paragraphs) && (forall c int :: 0 <= c && c < startCol ==> t.Rows[row].Cells[c] == old(t.Rows[row].Cells[c])) && (forall c int :: startCol < c && c < len(t.Rows[row].Cells) ==> t.Rows[row].Cells[c] == old(t.Rows[row].Cells[c + (endCol - startCol)])) && (forall r int, c int :: 0 <= r && r < len(t.Rows) && r != row && 0 <= c && c < len(t.Rows[r].Cells) ==> t.Rows[r].Cells[c] == old(t.Rows[r].Cells[c])) ==> cellParasOwn(t)
+//@ ensures err == nil && old(paraRunsOwn(t)) && t.Rows[row].Cells[startCol].Paragraphs == old(t.Rows[row].Cells[startCol].Paragraphs) && (forall c int :: 0 <= c && c < startCol ==> t.Rows[row].Cells[c] == old(t.Rows[row].Cells[c])) && (forall c int :: startCol < c && c < len(t.Rows[row].Cells) ==> t.Rows[row].Cells[c] == old(t.Rows[row].Cells[c + (endCol - startCol)])) && (forall r int, c int :: 0 <= r && r < len(t.Rows) && r != row && 0 <= c && c < len(t.Rows[r].Cells) ==> t.Rows[r].Cells[c] == old(t.Rows[r].Cells[c])) ==> paraRunsOwn(t)
 
 //@ func (*Table).MergeCellsVertical
 //@ props C09
-//@ wf TableCell.Properties
+//@ wf TableCell.Properties, TableCell.Paragraphs
 //@ requires t != nil && rowsOwn(t) && cellPropsOwn(t)
 //@ ensures err != nil ==> unchangedHeap()
 //@ ensures err == nil ==> 0 <= startRow && startRow < endRow && endRow < len(t.Rows) && 0 <= col
@@ -189,6 +256,10 @@ package document
 //@ ensures err == nil ==> len(t.Rows) == old(len(t.Rows)) && t.Rows == old(t.Rows)
 //@ ensures err == nil ==> forall r int :: 0 <= r && r < len(t.Rows) ==> t.Rows[r].Cells == old(t.Rows[r].Cells)
 //@ ensures err == nil ==> cellPropsOwn(t)
+//@ ensures err == nil ==> rowsOwn(t)
+//@ ensures err == nil && old(rowPropsOwn(t)) ==> rowPropsOwn(t)
+//@ ensures err == nil && old(cellParasOwn(t)) ==> cellParasOwn(t)
+//@ ensures err == nil && old(paraRunsOwn(t)) ==> paraRunsOwn(t)
 //@ ensures err == nil ==> t.Rows[startRow].Cells[col].Properties != nil && t.Rows[startRow].Cells[col].Properties.VMerge != nil && t.Rows[startRow].Cells[col].Properties.VMerge.Val == "restart"
 //@ ensures err == nil ==> forall r int :: startRow < r && r <= endRow ==> t.Rows[r].Cells[col].Properties != nil && t.Rows[r].Cells[col].Properties.VMerge != nil && t.Rows[r].Cells[col].Properties.VMerge.Val == "continue" && len(t.Rows[r].Cells[col].Paragraphs) == 1
 //@ loop 1
@@ -203,4 +274,6 @@ package document
 //@   invariant forall r int :: startRow <= r && r <= endRow ==> col < len(t.Rows[r].Cells)
 //@   invariant t.Rows[startRow].Cells[col].Properties != nil && t.Rows[startRow].Cells[col].Properties.VMerge != nil && t.Rows[startRow].Cells[col].Properties.VMerge.Val == "restart"
 //@   invariant forall r int :: startRow < r && r < i ==> t.Rows[r].Cells[col].Properties != nil && t.Rows[r].Cells[col].Properties.VMerge != nil && t.Rows[r].Cells[col].Properties.VMerge.Val == "continue" && len(t.Rows[r].Cells[col].Paragraphs) == 1
+//@   invariant old(cellParasOwn(t)) ==> cellParasOwn(t)
+//@   invariant old(paraRunsOwn(t)) ==> paraRunsOwn(t)
 //@   decreases endRow + 1 - i
